@@ -236,6 +236,19 @@ impl Group for Request1 {
                 }
             }
             v.push(mk(&bytes, "[]", &tag));
+            // the caller's limit below the declared length: the body is the first `limit` bytes, however the stream is
+            // delivered — all of it in one read with the head, cut right behind the head, cut inside the body
+            if !exp_body.is_empty() {
+                let mut lims = vec![0usize, 1, exp_body.len() / 2, exp_body.len() - 1];
+                lims.dedup();
+                for lim in lims {
+                    let expl = format!("ok {} body={}", show_head(g.method.as_bytes(), g.target.as_bytes(), g.version.as_bytes(), g.host.as_deref().unwrap_or("dflt.host").as_bytes(), &mut hs), digest(&exp_body[..lim]));
+                    let tagl = format!(" #{}", hex(expl.as_bytes()));
+                    for pat in ["[]".to_owned(), format!("[{head_len},100000]"), format!("[{},100000]", head_len + lim.max(1)), "[3]".to_owned()] {
+                        v.push(mk(&bytes, &pat, &tagl).replacen(" 16384 1000000", &format!(" 16384 {lim}"), 1));
+                    }
+                }
+            }
             let pat: Vec<String> = (0..rng.range(1, 4)).map(|_| rng.range(1, head_len.max(2)).to_string()).collect();
             v.push(mk(&bytes, &list(pat), &tag));
         }
